@@ -105,6 +105,39 @@ func c18R1(c *engine.Ctx) {
 			}
 		}
 		want := []uint32{0x44414548, 0x54534f50, 0x20544547, 0x4954504f, 0x02010316, 0xdddddddd, 0xeeeeeeee}
+		// the exclusion may be a predicate of the package applied to the first word
+		// (isReserved(first) == false on the accepting path): the predicate is then
+		// evaluated for each reserved word and must say true
+		for _, g := range engine.Guards(r) {
+			k := g.Cmp()
+			call := engine.CallOf(k.X)
+			b, isB := engine.ConstBool(k.Y)
+			if call == nil || !isB || !((!b && k.Op == token.EQL) || (b && k.Op == token.NEQ)) {
+				continue
+			}
+			h := call.Common().StaticCallee()
+			if h == nil || len(h.Blocks) == 0 || h.Pkg != fn.Pkg || len(h.Params) != 1 || len(call.Common().Args) != 1 {
+				continue
+			}
+			if d := engine.Describe(call.Common().Args[0]); !strings.Contains(d, "Uint32(") || !strings.Contains(d, "init[0:4]") {
+				continue
+			}
+			for _, w := range want {
+				w := w
+				res, err := engine.AbstractRun(h, func(p, q ssa.Value) (int, bool) {
+					if cst, isK := engine.ConstInt(q); isK && engine.Unwrap(p) == ssa.Value(h.Params[0]) {
+						return cmp64(int64(w), cst), true
+					}
+					if cst, isK := engine.ConstInt(p); isK && engine.Unwrap(q) == ssa.Value(h.Params[0]) {
+						return cmp64(cst, int64(w)), true
+					}
+					return 0, false
+				})
+				if err == nil && res.Bool != nil && *res.Bool {
+					first[w] = true
+				}
+			}
+		}
 		var missing []string
 		for _, w := range want {
 			if !first[w] {
@@ -141,6 +174,34 @@ func c18R2(c *engine.Ctx) {
 		src := spanStr(sc, call.Common().Args[1], call)
 		mats = append(mats, src)
 		appends[call.Value()] = src
+	}
+	// the copy may be made by a helper of the package whose only return is
+	// append(make([]byte, 0, n), param...): its argument is then the material
+	for _, call := range engine.Calls(fn) {
+		h := call.Common().StaticCallee()
+		if h == nil || len(h.Blocks) == 0 || h.Pkg != fn.Pkg || call.Value() == nil {
+			continue
+		}
+		rets := engine.Returns(h)
+		if len(rets) != 1 || len(rets[0].Results) != 1 {
+			continue
+		}
+		ap := isCallTo(rets[0].Results[0], "builtin.append")
+		if ap == nil {
+			continue
+		}
+		mk, isMk := engine.Unwrap(ap.Common().Args[0]).(*ssa.MakeSlice)
+		if !isMk {
+			continue
+		}
+		if z, isK := engine.ConstInt(mk.Len); !isK || z != 0 {
+			continue
+		}
+		if arg := argOfParam(ap.Common().Args[1], call); arg != nil {
+			src := spanStr(sc, arg, call)
+			mats = append(mats, src)
+			appends[call.Value()] = src
+		}
 	}
 	sort.Strings(mats)
 	wantMats := []string{"P1[40:56]", "P1[8:40]", "mtproxy/obfuscated2.getDecryptInit(p:init)[0:32]", "mtproxy/obfuscated2.getDecryptInit(p:init)[32:48]"}
@@ -269,35 +330,66 @@ func c18R3(c *engine.Ctx) {
 	}
 	c.Check(okCS, "C18.R3", "Accept/streams-from-header", fn.Pos(), "the server must derive its streams from the 64 received bytes and the secret")
 	// swap: k.encrypt ← old decrypt, k.decrypt ← old encrypt
-	swapE, swapD := false, false
+	// (fields are identified by name on the keys value, loads by what they read: each
+	// stored value must be the *old* content of the other field, i.e. loaded before
+	// that field is overwritten)
+	fieldOf := func(addr ssa.Value) string {
+		if fa, ok := addr.(*ssa.FieldAddr); ok && strings.HasSuffix(fa.X.Type().String(), "obfuscated2.keys") {
+			return engine.FieldNameOf(fa)
+		}
+		return ""
+	}
+	var stE, stD *ssa.Store
+	var ldForE, ldForD *ssa.UnOp
 	engine.Instrs(fn, func(i ssa.Instruction) {
 		st, ok := i.(*ssa.Store)
 		if !ok {
 			return
 		}
-		a, v := engine.Describe(st.Addr), engine.Describe(st.Val)
-		if strings.HasSuffix(a, "k.encrypt") && strings.HasSuffix(v, "k.decrypt") {
-			swapE = true
+		ld, isL := engine.Unwrap(st.Val).(*ssa.UnOp)
+		if !isL || ld.Op != token.MUL {
+			return
 		}
-		if strings.HasSuffix(a, "k.decrypt") && strings.HasSuffix(v, "k.encrypt") {
-			swapD = true
+		switch {
+		case fieldOf(st.Addr) == "encrypt" && fieldOf(ld.X) == "decrypt":
+			stE, ldForE = st, ld
+		case fieldOf(st.Addr) == "decrypt" && fieldOf(ld.X) == "encrypt":
+			stD, ldForD = st, ld
 		}
 	})
-	c.Check(swapE && swapD, "C18.R3", "Accept/streams-swapped", fn.Pos(), "the accepting side must exchange the encrypt and decrypt streams")
-	cps, _ := shapeCtx(fn, -1).Copies()
+	swapped := stE != nil && stD != nil &&
+		engine.Dominates(ldForE, stD) && engine.Dominates(ldForD, stE) // old decrypt read before decrypt is overwritten, old encrypt before encrypt is
+	c.Check(swapped, "C18.R3", "Accept/streams-swapped", fn.Pos(), "the accepting side must exchange the encrypt and decrypt streams (each field receives the other's previous value)")
+	// the decrypted header: destination of XORKeyStream on the (swapped) decrypt
+	// stream applied to the received 64 bytes; tag = [56:60], DC = [60:62] of it
+	sc := shapeCtx(fn, -1)
+	plainBase := ""
+	var xorCall ssa.CallInstruction
+	for _, call := range engine.Calls(fn) {
+		if !call.Common().IsInvoke() || call.Common().Method.Name() != "XORKeyStream" {
+			continue
+		}
+		if ld, isL := engine.Unwrap(call.Common().Value).(*ssa.UnOp); !isL || fieldOf(ld.X) != "decrypt" || stD == nil || !engine.Dominates(stD, call) {
+			continue
+		}
+		if sp, ok := sc.SpanOf(call.Common().Args[0], call); ok && sp.Full && sp.Lo == (engine.Lin{}) {
+			plainBase, xorCall = sp.Base, call
+		}
+	}
+	cps, _ := sc.Copies()
 	okTag := false
 	for _, cp := range cps {
-		if cp.Src.String() == "alloc:decrypted[56:60]" {
+		if plainBase != "" && cp.Src.String() == plainBase+"[56:60]" && engine.Dominates(xorCall, cp.Call) {
 			okTag = true
 		}
 	}
 	okDC := false
 	for _, call := range engine.Calls(fn) {
-		if strings.HasSuffix(engine.CalleeID(call.Common()), ".Uint16") && strings.HasSuffix(engine.Describe(engine.Args(call.Common())[1]), "decrypted[60:62]") {
+		if plainBase != "" && strings.HasSuffix(engine.CalleeID(call.Common()), ".Uint16") && spanStr(sc, engine.Args(call.Common())[1], call) == plainBase+"[60:62]" && engine.Dominates(xorCall, call) {
 			okDC = true
 		}
 	}
-	c.Check(okTag && okDC, "C18.R3", "Accept/tag-dc-offsets", fn.Pos(), "protocol tag and DC must be read from decrypted[56:60] and decrypted[60:62] (little-endian)")
+	c.Check(okTag && okDC, "C18.R3", "Accept/tag-dc-offsets", fn.Pos(), "protocol tag and DC must be read from bytes [56:60] and [60:62] (little-endian) of the header decrypted with the decrypt stream (decrypted buffer: %q)", plainBase)
 	// Write/Read stream use
 	for _, spec := range []struct{ m, stream string }{{"Obfuscated2.Write", ".encrypt"}, {"Obfuscated2.Read", ".decrypt"}} {
 		m := c.MustFunc("C18.R3", "mtproxy/obfuscated2", spec.m)
